@@ -254,7 +254,7 @@ def gen_textgrid(rng):
             ivs.append([s, e, rng.choice(["", "a", "hello world", 'q"uote', "ünï", "x y z", "42"])])
             t = e
         tiers.append([name, ivs])
-    sel = None if rng.random() < 0.4 else rng.sample(names, rng.randint(1, len(names)))
+    sel = None if rng.random() < 0.4 else rng.sample(names, rng.randint(0, len(names)))   # [] selects nothing
     return {"kind": "textgrid", "tiers": tiers, "selected": sel, "point_tier": rng.random() < 0.3}
 
 
@@ -304,7 +304,7 @@ def gen_elan(rng):
             s = rng.randrange(0, 100000)
             anns.add((s, s + rng.randrange(1, 5000), rng.choice(["a", "b c", "ünï", "12", 'q"', "<tag>&amp;"])))
         tiers.append([name, [list(a) for a in sorted(anns)]])
-    sel = None if rng.random() < 0.4 else rng.sample(names, rng.randint(1, len(names)))
+    sel = None if rng.random() < 0.4 else rng.sample(names, rng.randint(0, len(names)))   # [] selects nothing
     return {"kind": "elan", "tiers": tiers, "selected": sel}
 
 
